@@ -75,7 +75,7 @@ func TestC08(t *testing.T) {
 	rapid.Check(t, func(rt *rapid.T) {
 		var sc *Scenario
 		var info HostileInfo
-		switch rapid.IntRange(0, 5).Draw(rt, "family") {
+		switch rapid.IntRange(0, 7).Draw(rt, "family") {
 		case 0: // every era in mainnet's order (legacy graders, burns, PEG bank, 2.0, 2.0.2, mint, PIP-10)
 			sc = GenTimelineScenario(rt, DefaultCfg())
 			info.Kinds = []string{"timeline-all-eras"}
@@ -84,6 +84,17 @@ func TestC08(t *testing.T) {
 			sc, _ = GenIssuanceScenario(rt, st)
 			info.Kinds = []string{"issuance-activations"}
 			info.Structured = 1
+		case 2, 3, 4: // one held multi-transaction batch executing alone, incl. the legacy PEG-bank era
+			ib := genIsoBatch(rt, st)
+			msg, outcome := checkIsoBatch(ib)
+			if outcome == "wedge(registered finding)" {
+				st.Exclude("C16/mixed-peg-batch")
+			}
+			st.Case(fmt.Sprint("iso", ib.Sc.Chain.Start, ib.Hash), "isolated-batch-"+outcome)
+			if msg != "" && !strings.HasPrefix(msg, "harness:") && strings.Contains(msg, "fail for ever") {
+				fail(st, rt, msg, ib.Sc)
+			}
+			return
 		default:
 			sc, info = c08Scenario(rt, st)
 		}
